@@ -2325,6 +2325,27 @@ export class ObjectRuntype extends BaseRuntype {
       return annotateSchema(this.metadata, indexSchemas[0]);
     }
 
+    // Named properties next to index signatures whose keys are template literal types: inside an
+    // allOf, `propertyNames` / `additionalProperties` of the index part would also judge the named
+    // keys (and reject every member). Keys that match a pattern are described with
+    // patternProperties instead; like validate(), nothing else is allowed.
+    const patterned = indexSchemas.map((it) => {
+      const names = it.propertyNames;
+      if (typeof names === "object" && names !== null && typeof names.pattern === "string" && Object.keys(names).every((k) => k === "type" || k === "pattern")) {
+        return { pattern: names.pattern, value: it.additionalProperties as JSONSchema7Definition };
+      }
+      return null;
+    });
+    if (Object.keys(properties).length > 0 && patterned.every((it) => it != null)) {
+      const patternProperties: Record<string, JSONSchema7Definition> = {};
+      for (const it of patterned) {
+        if (it != null) {
+          patternProperties[it.pattern] = it.value;
+        }
+      }
+      return annotateSchema(this.metadata, { ...base, patternProperties, additionalProperties: false });
+    }
+
     return annotateSchema(this.metadata, {
       allOf: [base, ...indexSchemas],
     });
